@@ -478,6 +478,14 @@ func c03Change(before, after, noise map[string][]string) (int, []string) {
 	return lvl, desc
 }
 
+// c03ResourceRefused: the transaction was refused on resource grounds by the SDK decorators that
+// run BEFORE the authorisation decorator (gas for the transaction's size, transaction / memo too
+// large): no ante events, nothing executed.  Like a failing ValidateBasic it never reaches the
+// check the model describes (a hostile message with hundreds of long arguments does this).
+func c03ResourceRefused(res FATxResult) bool {
+	return res.Codespace == "sdk" && (res.Code == 11 || res.Code == 12 || res.Code == 21) && len(res.Events) == 0 && !res.Panicked
+}
+
 func c03Ids(ps ...int) string {
 	if len(ps) == 0 {
 		return "-"
@@ -736,7 +744,7 @@ func TestC03(t *testing.T) {
 		cfBefore := dir.confirmSnapshot()
 		res := w.DeliverMulti(txSigners, msgs...)
 		after := c03Attributed(w, fa.CtxCached(), victim)
-		pre := res.BlockErr != "" && !res.Panicked
+		pre := res.BlockErr != "" && !res.Panicked || c03ResourceRefused(res)
 		for _, msg := range msgs {
 			if p := faRecover(func() {
 				if vb, ok := msg.(sdk.HasValidateBasic); ok && vb.ValidateBasic() != nil {
@@ -975,6 +983,9 @@ func TestC03(t *testing.T) {
 		}
 		if o.res.BlockErr != "" && !o.res.Panicked {
 			o.pre = true // the transaction could not even be encoded / signed
+		}
+		if c03ResourceRefused(o.res) {
+			o.pre = true
 		}
 		record(o)
 		dir.checkConfirms(cfBefore, fmt.Sprintf("%s %s signer=%d creator=%d victim=%d redirected=%v", o.typ, o.sc, o.txSigner, o.creator, o.victim, o.redirected))
